@@ -222,6 +222,36 @@ PROPS = {
             "read_http_request's buf.shift() before reading (first statement of an async fn with iterator chains)",
         ],
     },
+    "C19": {
+        "title": "File log writer (bookkeeping part)",
+        "design_ref": "DESIGN.md section 3 (C19)",
+        "technique": "Verus contracts on the real PrefixFileSet operations and PrefixFile's ordering against a priority-queue view with the "
+                     "representation invariant len == sum of file lengths",
+        "level_text": "Deductive proof for every file set and every sequence of operations (by induction over the contracts), unbounded: push, "
+                      "delete_oldest, delete_older_than and delete_oldest_while_over_max_len preserve len == sum of the lengths of the files "
+                      "in the set; deletions remove oldest first (the remainder is a suffix of the pop order); delete_oldest_while_over_max_len(k) "
+                      "ends with total <= k; delete_older_than leaves no file older than the cut-off; the byte counter never underflows or "
+                      "overflows; both loops terminate; PrefixFile's Ord is the reversed mtime order.",
+        "level_note": "Only the bookkeeping clauses of C19 are claimed. Not covered (no contract within reach): the writer thread loop, "
+                      "LogFile::create, PrefixFileSet::new's directory scan (Path::starts_with -- pre-existing files), exactly-once / ordering of "
+                      "lines across rotation, restarts. Assumed: std BinaryHeap as a priority queue over PrefixFile's Ord, SystemTime ordering "
+                      "and subtraction, remove_file.",
+        "verus": ["logset"],
+        "verus_thorough": [],
+        "kani": [],
+        "witness": "c19",
+        "assumptions": [
+            "assumed contract: std::collections::BinaryHeap peek/pop return a greatest element under Ord (an oldest file, given the proved reversal), push inserts",
+            "assumed contract: SystemTime is totally ordered by a timestamp; `now - duration` is defined when representable (precondition)",
+            "assumed: std::fs::remove_file returns a Result and has no effect on the in-memory set",
+            "format!(..) error texts are opaque (R5)",
+        ],
+        "not_covered": [
+            "LogFileWriter::start_writer_thread loop (thread, channels, std::fs), LogFile::create / write_all",
+            "PrefixFileSet::new (directory scan with Path::starts_with; files of earlier runs)",
+            "no loss / duplication / reordering of lines across rotation; behaviour across restarts",
+        ],
+    },
 }
 
 NOT_APPLICABLE = {}
